@@ -24,7 +24,10 @@ func (ph *ZnPlaygroundHandler) ServeHTTP(w http.ResponseWriter, r *http.Request)
 	if err != nil {
 		writeResponseForPlayground(w, nil, err)
 	} else {
-		rtnValue, err := ph.interpreter.LoadScript(source).Execute(varInput)
+		// LoadScript changes the interpreter: work on a per-request copy, so that
+		// concurrent requests cannot execute each other's source
+		interpreter := *ph.interpreter
+		rtnValue, err := interpreter.LoadScript(source).Execute(varInput)
 		writeResponseForPlayground(w, rtnValue, err)
 	}
 }
